@@ -284,8 +284,8 @@ def summarize(F, key):
     silent = {}
     ok_rets = {b for b in rets if b not in dead}
     for bk, blst in sorted(by_key.items()):
-        if not any(c["sink"] for c in blst):
-            continue
+        if not any(c["sink"] or (c["ws"] and c["kind"] in GATE) for c in blst):
+            continue  # state changes, and workspace checks whose verdict decides the continuation (an early `return Ok` must not skip them)
         targets = {c["bi"] for c in blst}
         found = []
         for bi, (sig, am, els) in conds.items():
@@ -368,8 +368,13 @@ def summarize(F, key):
     elif rty not in ("()", "!"):
         universe |= set(_stab(F, ex.local(0, 0, ())))
     gates = sorted({c["key"] for c in calls if c["kind"] in GATE or c["sink"]})
+    # how many Option / Result combinators consume values here (a `match` on a call's result may legitimately become one of them)
+    combs = 0
+    for bi, t in F.calls(key):
+        if bi in live and any(re.search(r"^core::(option::Option|result::Result)::[a-z_]+$", nm) for nm in callee_names(t)):
+            combs += 1
     return {"must": must, "order": order, "args": args, "guards": guards, "silent": silent, "assigns": assigns, "ret": ret,
-            "consts": const_census(fn), "universe": sorted(universe), "gates": gates, "rejects": rejects, "reject_vars": sorted(var_blocks), "each": each,
+            "consts": const_census(fn), "universe": sorted(universe), "gates": gates, "combs": combs, "rejects": rejects, "reject_vars": sorted(var_blocks), "each": each,
             "guard_n": sorted([json.loads(g), c] for g, c in gcount.items() if c > 1), "guard_all": dict(gcount)}
 
 
@@ -654,7 +659,7 @@ class _Cur:
         return self.s[k]
 
 
-def _guard_present(ctx, cs, k, g, closures, helpers, relaxed=False):
+def _guard_present(ctx, cs, k, g, closures, helpers, relaxed=False, base_combs=None):
     F = ctx.F
     cur_names, _b = ws_short_names(F)
     g1, g2 = _live_atoms(F, g[1]), _live_atoms(F, g[2])
@@ -683,6 +688,14 @@ def _guard_present(ctx, cs, k, g, closures, helpers, relaxed=False):
                     gated |= {a[5:] for a in cs.get(x)["universe"] if a.startswith("call:")}
             if calls <= gated:
                 return True
+            if base_combs is not None:
+                # a `match` / `if let` that only selected a value (`match r { Ok(h) => h, Err(_) => 0 }`) written as a combinator (`r.unwrap_or(0)`):
+                # the calls are still made and the function consumes more Option / Result values through combinators than it did
+                uni = set()
+                for x in [k] + closures:
+                    uni |= {a[5:] for a in cs.get(x)["universe"] if a.startswith("call:")}
+                if calls <= uni and sum(cs.get(x)["combs"] for x in [k] + closures) > base_combs:
+                    return True
             return False
         uni = set()
         for x in pool:
@@ -890,7 +903,7 @@ def check(ctx, prop):
         parent = roles.get(role.split("@")[0]) if b.get("closure") else None
         for g in b.get("guards", []):
             n["guards"] += 1
-            if _guard_present(ctx, cs, k, g, closures, helpers):
+            if _guard_present(ctx, cs, k, g, closures, helpers, base_combs=b.get("combs")):
                 continue
             if parent and parent != k:
                 # closures are addressed by the adaptor call that receives them; when that call was rewritten the role may now name a
@@ -945,7 +958,9 @@ def check(ctx, prop):
                 core = _core(F, sig)
                 if not core:
                     continue
-                if any(core <= bc_ or (bc_ and bc_ <= core) for bc_ in base_cores):
+                def _weighty(cset):
+                    return any(a_.startswith("call:") or a_.startswith("field:") for a_ in cset)
+                if any(core <= bc_ or (bc_ and _weighty(bc_) and bc_ <= core) for bc_ in base_cores):
                     continue
                 if any(core <= gc for gc in base_guard_cores if gc):
                     # the condition itself is a confirmed one; it now also governs this call only if the call sat under it before
